@@ -27,6 +27,10 @@ CONSTANTS V, Byz,        \* validators, Byzantine subset
           MaxNodes,      \* bound on round nodes that ever receive an (honest, if ByzMax) vote
           MaxVotes,      \* bound on the rounds one honest validator votes in
           RootVotes,     \* FALSE: the first round (no COM possible there) stays empty
+          Monotone,      \* TRUE: an honest validator packs on its best block, and its best block never gets worse: the
+                         \* (quality, height) of what it builds on is at least that of its own previous block.  FALSE:
+                         \* honest validators may vote anywhere at any time (an over-approximation under which safety
+                         \* holds for two-round branches and FAILS for three-round ones - see MC_BFTEpoch_y3free.cfg)
           Variant        \* "asis" | seeded design errors: "castq" (casts compared with q instead of q-1),
                          \* "norule" (no conflict check), "finq" (finalize on justified instead of committed),
                          \* "geq" (threshold >=), "dropcasts" (casts forgotten when a new one is made)
@@ -37,8 +41,9 @@ IsAnc(a, b) == Len(a) <= Len(b) /\ SubSeq(b, 1, Len(a)) = a
 SameChain(a, b) == IsAnc(a, b) \/ IsAnc(b, a)
 
 VARIABLES vt,      \* [Nodes -> [V -> {"n","w","c"}]]
-          casts    \* [Honest -> set of <<node, quality>>]
-vars == <<vt, casts>>
+          casts,   \* [Honest -> set of <<node, quality>>]
+          last     \* [Honest -> <<quality, depth>>] of the validator's own latest block (its best block is at least that)
+vars == <<vt, casts, last>>
 
 RECURSIVE SumW(_)
 SumW(S) == IF S = {} THEN 0 ELSE LET x == CHOOSE x \in S : TRUE IN W[x] + SumW(S \ {x})
@@ -81,6 +86,9 @@ Rule(v, c) ==
 
 Init == /\ vt = [c \in Nodes |-> [v \in V |-> "n"]]
         /\ casts = [v \in Honest |-> {}]
+        /\ last = [v \in Honest |-> <<0, 0>>]
+\* fork choice (bft.Select): quality first, then total score - here the depth of the round
+AtLeast(a, b) == a[1] > b[1] \/ (a[1] = b[1] /\ a[2] >= b[2])
 
 CanTouch(c) == /\ (c = <<>> \/ Exists(Par(c)))
                /\ (RootVotes \/ c # <<>>)
@@ -90,17 +98,20 @@ CanTouch(c) == /\ (c = <<>> \/ Exists(Par(c)))
 HVote(v, c) ==
   /\ CanTouch(c) /\ vt[c][v] = "n"
   /\ Cardinality({k \in Nodes : vt[k][v] # "n"}) < MaxVotes
+  /\ LET x == IF Placed(vt, c) # {} \/ c = <<>> THEN c ELSE Par(c)
+     IN Monotone => AtLeast(<<QIn(vt, x), Len(c)>>, last[v])
   /\ LET bit == IF Rule(v, c) THEN "c" ELSE "w"
          f2 == [vt EXCEPT ![c][v] = bit]
      IN /\ vt' = f2
         /\ casts' = [casts EXCEPT ![v] = IF Variant = "dropcasts" THEN {<<c, QIn(f2, c)>>}
                                           ELSE {k \in @ : k[1] # c} \cup {<<c, QIn(f2, c)>>}]
+        /\ last' = [last EXCEPT ![v] = <<QIn(f2, c), Len(c)>>]
 BVote(z, c, bit) ==
   /\ CanTouch(c)
   /\ \/ vt[c][z] = "n"
      \/ vt[c][z] = "c" /\ bit = "w"          \* a later non-COM block in the same round: counts as non-COM
   /\ vt' = [vt EXCEPT ![c][z] = bit]
-  /\ UNCHANGED casts
+  /\ UNCHANGED <<casts, last>>
 
 Next == \/ \E v \in Honest, c \in Nodes : HVote(v, c)
         \/ ~ByzMax /\ \E z \in Byz, c \in Nodes, bit \in {"w", "c"} : BVote(z, c, bit)
